@@ -111,8 +111,99 @@ func header401(r *mon.Run, m *vgirpc.OAuthResourceMetadata) (string, bool) {
 func main() {
 	r := mon.Start("C28")
 	defer r.Finish()
-	r.SetRule("all 2^5 subsets of the optional fields x generated values over [A-Za-z0-9-._~]+ (incl. values equal to parameter names) x resource URLs; header taken from a real 401; distinct = distinct (mask, value-shape, resource) tuples; trivial = mask 0")
-	r.Require("mask-all-absent", "mask-all-present", "device-id-without-client-id", "device-secret-without-client-secret")
+	r.SetRule("all 2^5 subsets of the optional fields x generated values over [A-Za-z0-9-._~]+ (incl. values equal to parameter names) x resource URLs, plus a domain probe (every byte value and header-syntax-shaped strings in each optional field, membership decided by Validate()); header taken from a real 401; distinct = distinct (mask, value-shape, resource) tuples; trivial = mask 0")
+	r.Require("mask-all-absent", "mask-all-present", "device-id-without-client-id", "device-secret-without-client-secret",
+		"domain-probe:field-0", "domain-probe:field-1", "domain-probe:field-2", "domain-probe:field-3", "domain-probe:admitted-by-validation")
+
+	// evaluate runs one metadata value through validation, a real 401 and every parser.
+	// wide = the value comes from the domain probe (any byte), where validation decides
+	// membership: a rejected value is outside the property's quantifier and is only counted.
+	evaluate := func(c caseT, i int, wide bool) {
+		mask := c.Mask
+		m := &vgirpc.OAuthResourceMetadata{
+			Resource: c.Resource, AuthorizationServers: []string{"https://idp.example"},
+			ClientID: c.ClientID, ClientSecret: c.Secret, DeviceCodeClientID: c.DevID,
+			DeviceCodeClientSecret: c.DevSec, UseIDTokenAsBearer: c.IDTok,
+		}
+		if m.Validate() != nil {
+			if wide {
+				r.Count("domain_probe.rejected_by_validation", 1)
+				r.Class("domain-probe:rejected-by-validation")
+				return
+			}
+			r.Fatal("generator produced invalid metadata: %+v", c)
+		}
+		if wide {
+			r.Count("domain_probe.admitted_by_validation", 1)
+			r.Class("domain-probe:admitted-by-validation")
+		}
+		hdr, ok := header401(r, m)
+		if !ok {
+			r.Fatal("SetOAuthResourceMetadata refused valid metadata: %+v", c)
+		}
+		c.Header = hdr
+		switch {
+		case mask == 0:
+			r.Class("mask-all-absent")
+		case mask == 31:
+			r.Class("mask-all-present")
+		}
+		if mask&4 != 0 && mask&1 == 0 {
+			r.Class("device-id-without-client-id")
+		}
+		if mask&8 != 0 && mask&2 == 0 {
+			r.Class("device-secret-without-client-secret")
+		}
+		sig := ""
+		if mask != 0 {
+			sig = fmt.Sprintf("%d|%s|%s|%s|%s|%s", mask, c.Resource, c.ClientID, c.Secret, c.DevID, c.DevSec)
+		}
+		r.Case(sig)
+		if i < 1 && mask%11 == 5 {
+			r.Sample(c)
+		}
+
+		check := func(field, got, want string) {
+			if got != want {
+				// Signature: which parser, and whose value it returned instead.
+				cause := "wrong-value"
+				others := [][2]string{{"device_code_client_secret", c.DevSec}, {"device_code_client_id", c.DevID},
+					{"client_secret", c.Secret}, {"client_id", c.ClientID}}
+				for _, o := range others {
+					// Prefer the parameter whose name ends with the parsed one (the substring trap).
+					if o[0] != field && o[1] != "" && o[1] == got && (cause == "wrong-value" || strings.HasSuffix(o[0], field)) {
+						cause = "returns-" + o[0]
+					}
+				}
+				if want != "" {
+					cause += ":when-present"
+				} else {
+					cause += ":when-absent"
+				}
+				r.Violation(
+					fmt.Sprintf("parse:%s:%s", field, cause),
+					fmt.Sprintf("Parse of %s returned %q, advertised %q (header %q)", field, got, want, hdr),
+					c)
+			}
+		}
+		// Expected resource-metadata URL: what the server itself serves the document at.
+		// The advertised URL is compared up to percent-encoding equivalence
+		// (net/url may re-escape sub-delims such as '!' when it rebuilds the
+		// path): same scheme, host, decoded path and query as the RFC 9728
+		// well-known URL of the resource, computed independently.
+		gotURL := vgirpc.ParseResourceMetadataURL(hdr)
+		if !sameURL(gotURL, expectedMetadataURL(c.Resource)) {
+			check("resource_metadata", gotURL, expectedMetadataURL(c.Resource))
+		}
+		check("client_id", vgirpc.ParseClientID(hdr), c.ClientID)
+		check("client_secret", vgirpc.ParseClientSecret(hdr), c.Secret)
+		check("device_code_client_id", vgirpc.ParseDeviceCodeClientID(hdr), c.DevID)
+		check("device_code_client_secret", vgirpc.ParseDeviceCodeClientSecret(hdr), c.DevSec)
+		if got := vgirpc.ParseUseIDTokenAsBearer(hdr); got != c.IDTok {
+			r.Violation("parse:use_id_token_as_bearer",
+				fmt.Sprintf("ParseUseIDTokenAsBearer=%v advertised %v (header %q)", got, c.IDTok, hdr), c)
+		}
+	}
 
 	perMask := r.N(500, 50000)
 	for mask := 0; mask < 32; mask++ {
@@ -132,79 +223,46 @@ func main() {
 				c.DevSec = genValue(rng)
 			}
 			c.IDTok = mask&16 != 0
-			m := &vgirpc.OAuthResourceMetadata{
-				Resource: c.Resource, AuthorizationServers: []string{"https://idp.example"},
-				ClientID: c.ClientID, ClientSecret: c.Secret, DeviceCodeClientID: c.DevID,
-				DeviceCodeClientSecret: c.DevSec, UseIDTokenAsBearer: c.IDTok,
-			}
-			if m.Validate() != nil {
-				r.Fatal("generator produced invalid metadata: %+v", c)
-			}
-			hdr, ok := header401(r, m)
-			if !ok {
-				r.Fatal("SetOAuthResourceMetadata refused valid metadata: %+v", c)
-			}
-			c.Header = hdr
-			switch {
-			case mask == 0:
-				r.Class("mask-all-absent")
-			case mask == 31:
-				r.Class("mask-all-present")
-			}
-			if mask&4 != 0 && mask&1 == 0 {
-				r.Class("device-id-without-client-id")
-			}
-			if mask&8 != 0 && mask&2 == 0 {
-				r.Class("device-secret-without-client-secret")
-			}
-			sig := ""
-			if mask != 0 {
-				sig = fmt.Sprintf("%d|%s|%s|%s|%s|%s", mask, c.Resource, c.ClientID, c.Secret, c.DevID, c.DevSec)
-			}
-			r.Case(sig)
-			if i < 1 && mask%11 == 5 {
-				r.Sample(c)
-			}
+			evaluate(c, i, false)
+		}
+	}
 
-			check := func(field, got, want string) {
-				if got != want {
-					// Signature: which parser, and whose value it returned instead.
-					cause := "wrong-value"
-					others := [][2]string{{"device_code_client_secret", c.DevSec}, {"device_code_client_id", c.DevID},
-						{"client_secret", c.Secret}, {"client_id", c.ClientID}}
-					for _, o := range others {
-						// Prefer the parameter whose name ends with the parsed one (the substring trap).
-						if o[0] != field && o[1] != "" && o[1] == got && (cause == "wrong-value" || strings.HasSuffix(o[0], field)) {
-							cause = "returns-" + o[0]
-						}
-					}
-					if want != "" {
-						cause += ":when-present"
-					} else {
-						cause += ":when-absent"
-					}
-					r.Violation(
-						fmt.Sprintf("parse:%s:%s", field, cause),
-						fmt.Sprintf("Parse of %s returned %q, advertised %q (header %q)", field, got, want, hdr),
-						c)
+	// Domain probe.  The statement quantifies over "all metadata values allowed by
+	// validation", so the value alphabet is taken from Validate() itself rather than from a
+	// list in this file: every byte 0x00..0xFF embedded in each of the four optional fields
+	// (alone, between safe characters, first and last), plus strings shaped like header
+	// syntax.  Whatever validation admits must round-trip; what it rejects is counted.
+	prng := r.Rand(1000)
+	var probes []string
+	for b := 0; b < 256; b++ {
+		ch := string([]byte{byte(b)})
+		probes = append(probes, ch, "a"+ch+"b", ch+"ab", "ab"+ch)
+	}
+	probes = append(probes,
+		`pa"ss`, `"`, `""`, `a"`, `"a`, `x", device_code_client_id="forged`, `x", use_id_token_as_bearer="true`,
+		`a b`, `a,b`, `a, client_id="z`, `a\`, `a\"b`, `a=b`, `a;b`, "a\tb", "é", "a\u00e9b", `a'b`, `a%22b`, `a+b/c=`, `a!b`, ` a`, `a `)
+	for _, v := range probes {
+		for f := 0; f < 4; f++ {
+			// the probed field alone, and together with safe values in all other fields
+			for _, full := range []bool{false, true} {
+				c := caseT{Resource: genResource(prng), Mask: 1 << f}
+				if full {
+					c.Mask = 15 | prng.IntN(2)<<4
+					c.ClientID, c.Secret, c.DevID, c.DevSec = genValue(prng), genValue(prng), genValue(prng), genValue(prng)
+					c.IDTok = c.Mask&16 != 0
 				}
-			}
-			// Expected resource-metadata URL: what the server itself serves the document at.
-			// The advertised URL is compared up to percent-encoding equivalence
-			// (net/url may re-escape sub-delims such as '!' when it rebuilds the
-			// path): same scheme, host, decoded path and query as the RFC 9728
-			// well-known URL of the resource, computed independently.
-			gotURL := vgirpc.ParseResourceMetadataURL(hdr)
-			if !sameURL(gotURL, expectedMetadataURL(c.Resource)) {
-				check("resource_metadata", gotURL, expectedMetadataURL(c.Resource))
-			}
-			check("client_id", vgirpc.ParseClientID(hdr), c.ClientID)
-			check("client_secret", vgirpc.ParseClientSecret(hdr), c.Secret)
-			check("device_code_client_id", vgirpc.ParseDeviceCodeClientID(hdr), c.DevID)
-			check("device_code_client_secret", vgirpc.ParseDeviceCodeClientSecret(hdr), c.DevSec)
-			if got := vgirpc.ParseUseIDTokenAsBearer(hdr); got != c.IDTok {
-				r.Violation("parse:use_id_token_as_bearer",
-					fmt.Sprintf("ParseUseIDTokenAsBearer=%v advertised %v (header %q)", got, c.IDTok, hdr), c)
+				switch f {
+				case 0:
+					c.ClientID = v
+				case 1:
+					c.Secret = v
+				case 2:
+					c.DevID = v
+				case 3:
+					c.DevSec = v
+				}
+				r.Class(fmt.Sprintf("domain-probe:field-%d", f))
+				evaluate(c, 1, true)
 			}
 		}
 	}
